@@ -40,6 +40,8 @@ def check(ctx):
     ctx.attempt(_selection)
     ctx.attempt(_mro_calls)
     ctx.attempt(forward.check_all, module_suffixes=('containers.containers', 'plssdesc.plssdesc'))
+    ctx.attempt(_setitem_kinds)
+    ctx.attempt(common.first_element_speaks_for_all, [f for f in ctx.repo.funcs.values() if f.module.name.endswith('containers.containers')])
     ctx.attempt(common.no_dedup_on_insert, [f for f in ctx.repo.funcs.values() if f.module.name.endswith('containers.containers')])
     from .c12 import error_undef_tables      # filter_errors() relies on is_error / is_undef
     ctx.attempt(error_undef_tables)
@@ -405,3 +407,35 @@ def _mro_calls(ctx):
                               detail_bad=f"`{norm(c)[:60]}`: no method `{name}` on the container classes (AttributeError)",
                               key=f"EXC|{m.qualname}|{name}", where=common.loc(m, c))
     ctx.floor('container method calls resolved', n, 18)
+
+
+def _setitem_kinds(ctx):
+    """`self._elements[index] = X` stores ONE element for an int index and a
+    sequence for a slice.  A verified *iterable* (the list that
+    _verify_iterable returns) may therefore only be stored when the index is
+    known to be a slice; chosen by the type of the value instead,
+    `tl[1] = [tract]` puts a plain list into the container as one element."""
+    from ..srcmodel import facts_at
+    n = 0
+    for spec in ('_TRSTractList.__setitem__',):
+        try:
+            fi = ctx.repo.func(spec)
+        except AnalysisError:
+            continue
+        idx = [p_ for p_ in fi.params() if p_ != 'self'][0] if len(fi.params()) > 1 else 'index'
+        for a in walk_local(fi.node):
+            if isinstance(a, ast.Assign) and isinstance(a.targets[0], ast.Subscript) and norm(a.targets[0].value) == 'self._elements':
+                whole = any(isinstance(c, ast.Call) and (dotted(c.func) or '').split('.')[-1] == '_verify_iterable'
+                            for c in ast.walk(a.value))
+                if not whole:
+                    continue
+                n += 1
+                facts = [(t, p) for _e, t, p in facts_at(a)]
+                is_slice = any(t.replace(' ', '') == f"isinstance({idx},slice)" and p for t, p in facts)
+                ctx.check(is_slice, 'SINK', f"{spec}: a verified iterable is stored only under a slice index",
+                          detail_bad=f"`{norm(a)[:60]}` runs under {[t for t, p in facts if p][:2]}, which says nothing about `{idx}`: "
+                                     f"with an int index the whole list becomes ONE element (`tl[1] = [tract]` no longer raises "
+                                     f"TypeError and the container holds a list)", key=f"SINK|{spec}|iterable-under-int",
+                          where=common.loc(fi, a))
+    if n == 0:
+        ctx.ok('SINK', '__setitem__ stores single verified elements only')
